@@ -92,6 +92,8 @@ def _fracdec(f):
 def column(rng, tier_fast=True, force=None):
     """one random column set-up. `force` may pin some fields (dict)."""
     force = force or {}
+    if not force and rng.random() < 0.2:
+        return stress_column(rng, tier_fast)
     kind = force.get("kind") or ("advection" if rng.random() < 0.08 else "transport")
     nmax = 40
     n = force.get("n") or rng.choice([1, 1, 2, 2, 3, 4, 5, 6, 8, 10, 12, 15, 20, 25, 30, 40][: (12 if tier_fast else 16)])
@@ -164,6 +166,72 @@ def column(rng, tier_fast=True, force=None):
     case["mcd"] = None
     case["implicit"] = None
     case["solids"] = None
+    return case
+
+
+def stress_column(rng, tier_fast=True):
+    """end-cell stress: unequal lengths with a short first/last cell, a constant boundary at one end only, a larger
+    dispersivity in an end cell, and a time step that puts the largest mixing factor close to the stability limit
+    (1.5*maxmix just below / above an integer, few sub-mixes), with a strong concentration contrast at that end."""
+    n = rng.choice([1, 2, 3, 4, 5, 6, 8, 10])
+    shifts = rng.choice([1, 1, 2, 3, 5])
+    end = rng.choice(["first", "last"])
+    flow = rng.choice(["diffusion_only", "diffusion_only", "forward", "back"])
+    other = rng.choice([2, 3])
+    bc = [1, other] if end == "first" else [other, 1]
+    L = Fraction(dec(rng, 0.01, 10, rng.choice([1, 2])))
+    short = Fraction(rng.choice([50, 60, 70, 75, 80, 85, 90, 95, 120]), 100)
+    lengths = [L] * n
+    lengths[0 if end == "first" else n - 1] = L * short
+    if rng.random() < 0.3 and n > 2:
+        lengths[rng.randrange(n)] = L * Fraction(rng.choice([60, 150, 200]), 100)
+    disps = [Fraction(0)] * n
+    if flow != "diffusion_only":
+        a = Fraction(dec(rng, 0.001, 1, 2)) * L
+        dm = rng.choice(["zero", "equal", "end-large"])
+        if dm != "zero":
+            disps = [a] * n
+        if dm == "end-large":
+            disps[0 if end == "first" else n - 1] = a * rng.choice([2, 5, 10])
+    diffc = Fraction(rng.choice(["1e-9", "0.3e-9", dec(rng, 1e-11, 1e-7, 2)]))
+    # largest factor is (about) the boundary cell's: 2*D*t/Le^2 (+ disp/Le with flow) + interior part
+    Le = lengths[0 if end == "first" else n - 1]
+    target = Fraction(rng.choice([55, 60, 64, 66, 68, 90, 110, 128, 132, 135, 190, 199, 201, 260, 330]), 100)
+    # interior sums are about half the end cell's: aim the *interior* maximum at `target`/1.5 in half the cases
+    if rng.random() < 0.5:
+        t = target / Fraction(3, 2) * L * L / (2 * diffc)
+    else:
+        t = target / Fraction(3, 2) * Le * Le / (2 * diffc) / 2
+    timest = "%.3e" % float(t)
+    case = {"kind": "transport", "n": n, "shifts": shifts, "flow": flow, "bc": bc,
+            "lengths": [_fracdec(x) for x in lengths], "disps": [_fracdec(x) for x in disps],
+            "diffc": "%.3e" % float(diffc), "timest": timest, "correct_disp": rng.random() < 0.3,
+            "stag": None, "mcd": None, "implicit": None, "solids": None, "gen": "stress"}
+    cs = rng.choice([0.1, 1, 10])
+    sols = {}
+    base = solution(rng, cs * 0.05, True, False)
+    for i in range(1, n + 1):
+        sols[str(i)] = base if rng.random() < 0.6 else solution(rng, cs, True, False)
+    peak = solution(rng, cs * 20, True, False)
+    # contrast at the stressed end: the end cell against its neighbour / the constant boundary solution
+    e = 1 if end == "first" else n
+    b = 0 if end == "first" else n + 1
+    o = n + 1 if end == "first" else 0
+    if rng.random() < 0.5:
+        sols[str(e)] = base
+        sols[str(b)] = peak
+        if n > 1:
+            sols[str(e + (1 if end == "first" else -1))] = peak
+    else:
+        sols[str(e)] = peak
+        sols[str(b)] = base
+    if flow == "forward":
+        sols.setdefault("0", solution(rng, cs, True, False))
+    if flow == "back":
+        sols.setdefault(str(n + 1), solution(rng, cs, True, False))
+    if rng.random() < 0.5:
+        sols.setdefault(str(o), solution(rng, cs, True, False))
+    case["sols"] = sols
     return case
 
 
